@@ -398,7 +398,7 @@ def inflationProg : Bytes :=
 /-- the real `vm.Verify` answers exactly this: gasLeft 10010 for limit 10000, no error -/
 theorem inflation_witness :
     (verifyFuel valueMem (dummyCtx inflationProg []) 20 () 10000).map (fun r => (r.gasLeft, r.err))
-      = some (10010, none) := by decide
+      = some (10010, none) := by decide +kernel
 
 /-- `0 ≤ gasLeft ≤ gasLimit` for every program, argument list and limit -/
 def gas_bound_full : Prop :=
@@ -413,7 +413,7 @@ theorem gas_bound_full_refuted : ¬ gas_bound_full := by
 /-- the guarded run of the same program stops at the event instead of returning a result -/
 theorem inflation_is_the_event :
     (match verifyFuelG valueMem (dummyCtx inflationProg []) 20 () 10000 with
-     | some .event => true | _ => false) = true := by decide
+     | some .event => true | _ => false) = true := by decide +kernel
 
 /-- potential difference of one completed instruction -/
 def stepDelta (ctx : Context Bytes) (cur : Frame Bytes) : Option Int :=
@@ -431,7 +431,7 @@ def freeMultisigFrame : Frame Bytes :=
   { prog := [0xad], pc := 0, nextPC := 0, runLimit := 100, deferred := 0,
     data := [[], [], List.replicate 32 7], alt := [], depth := 0, expRes := true }
 
-theorem free_multisig_witness : stepDelta (dummyCtx [0xad] []) freeMultisigFrame = some 0 := by decide
+theorem free_multisig_witness : stepDelta (dummyCtx [0xad] []) freeMultisigFrame = some 0 := by decide +kernel
 
 theorem every_step_costs_one_full_refuted : ¬ every_step_costs_one_full := by
   intro h
